@@ -243,7 +243,29 @@ func runH2(casesPath, tracePath string, from, nrand int) {
 		var stream []byte
 		ev := vh.Ev{"case": idx, "n": c.N}
 		var call func([]byte, string) h2run
-		if c.Kind == "frame" {
+		if c.Kind == "hpint" || c.Kind == "fval" {
+			var hc hpintCase
+			if err := json.Unmarshal(raw, &hc); err != nil {
+				return err
+			}
+			if c.Kind == "hpint" {
+				stream = hpintStream(&hc)
+				call = hpintOnce(&hc)
+				ev["ev"], ev["field"], ev["class"], ev["fill"], ev["target"] = "hpint", hc.Field, hc.Class, hc.Fill, hc.Target
+			} else {
+				stream = fvalStream(&hc)
+				// both sides of the proxy read frames with the same framer type
+				client := hc.Target == "client-framer"
+				call = fvalOnce(client)
+				side := "server-framer"
+				if client {
+					side = "client-framer"
+				}
+				ev["ev"], ev["t"], ev["id"], ev["vname"], ev["target"] = "fval", hc.T, hc.ID, hc.VName, side
+			}
+			c.N = len(stream)
+			ev["n"] = c.N
+		} else if c.Kind == "frame" {
 			var fs []h2shape
 			if err := json.Unmarshal(c.Frames, &fs); err != nil {
 				return err
